@@ -83,4 +83,10 @@ theorem resume_table :
     resumeRows.all (fun (w, occ, pos, res) => canResume (mk (win w) (occCells occ)) 0 pos == res) = true := by
   decide +kernel
 
+theorem encoder_table :
+    encoderRows.all (fun (reserve, p, b, e, cached) =>
+      let e' := if e = -1 then maxInt32 else e
+      ([EOp.start (some p) reserve, .put 0 1, .remove b e'].foldl encStep {}).cached == cached) = true := by
+  decide +kernel
+
 end OllamaVerif.Tie.C06
